@@ -365,6 +365,46 @@ def cacheseq(prop, tier, seed):
                             "model invariants PrecedenceOK/IsolationOK/WriteWins hold in the exhaustive configuration (checked this run)"]}
 
 
+def selftest_lin():
+    import copy
+    ok = True
+    # 4. linearizability traces (C12): a recorded concurrent execution is accepted; the same log with one returned
+    #    version changed, with a completed Refresh of the manual cache removed, or with a rename removed is rejected
+    import lintrace
+    ldir = vlib.mkscratch("selftest-lin")
+    try:
+        run_harness("lin", ["-seed", 5, "-traces", 1, "-events", 400, "-out", ldir])
+        t = [json.loads(l) for l in open(os.path.join(ldir, os.listdir(ldir)[0])).read().split("\n") if l.strip()]
+    finally:
+        shutil.rmtree(ldir, ignore_errors=True)
+    good = lintrace.validate_events(t, "selftest-lin")[0]
+    print("selftest linearizability: recorded execution accepted: %s" % good)
+    ok &= good
+    call = {}
+    cands = []
+    for i, e in enumerate(t):
+        if e["e"] == "call":
+            call[e["t"]] = (i, e)
+        elif e["e"] == "ret" and call.get(e["t"]):
+            cands.append((call[e["t"]][0], i, call[e["t"]][1]))
+    k = max(i for (_, i, c) in cands if c["c"] == "manual" and c["op"] in ("GetDevice", "ListDevices", "InjectDevices") and t[i]["v"] > 1)
+    c1 = copy.deepcopy(t)
+    c1[k]["v"] -= 1
+    # without the manual cache's Refresh calls its queries would have to keep showing version 1
+    dropped = set()
+    for (ci, ri, c) in cands:
+        if c["c"] == "manual" and c["op"] == "Refresh":
+            dropped |= {ci, ri}
+    c2 = [e for i, e in enumerate(t) if i not in dropped]
+    vmax = max(e["v"] for e in t if e["e"] == "ret")
+    c3 = [e for e in t if not (e["e"] in ("swb", "swe") and e["v"] == vmax)]
+    for name, c in (("one returned version changed", c1), ("the Refresh calls of the manual cache removed", c2), ("the newest observed rename removed", c3)):
+        good = not lintrace.validate_events(c, "selftest-lin")[0]
+        print("selftest linearizability: %s -> rejected: %s" % (name, good))
+        ok &= good
+    return ok
+
+
 def selftest():
     """Binding demonstrations: the model must find the seeded defects, the replay must go red
     when an expected value is corrupted."""
@@ -440,6 +480,7 @@ def selftest():
         good = not autotrace.validate(c, "selftest")[0]
         print("selftest trace validation: %s -> rejected: %s" % (name, good))
         ok &= good
+    ok &= selftest_lin()
     return 0 if ok else 1
 
 
